@@ -4,6 +4,7 @@ package zzverif
 
 import (
 	"github.com/HobbyOSs/gosk/internal/zzverif/vrt"
+	"github.com/HobbyOSs/gosk/internal/zzverif/x86ref"
 )
 
 func init() {
@@ -122,6 +123,15 @@ func VC02Carriers() {
 	} else if vrt.Choose("size", 2) == 1 {
 		sz = 32
 	}
+	st, ok := c02CarrierStmt(carrier, mode, sz, m)
+	if !ok {
+		vrt.Assume(false)
+	}
+	checkStmt(st, mode, "c02.ea")
+}
+
+// c02CarrierStmt builds the carrier instruction around memory operand m.
+func c02CarrierStmt(carrier string, mode, sz int, m MemSpec) (Stmt, bool) {
 	reg := regsOf(sz)[3]
 	acc := regsOf(sz)[0]
 	mk := m
@@ -147,17 +157,17 @@ func VC02Carriers() {
 		st.Want.Ops[1].Size = 8
 	case "push":
 		if sz == 8 {
-			vrt.Assume(false)
+			return Stmt{}, false
 		}
 		st = mkStmt("PUSH", mode, M(mk))
 	case "pop":
 		if sz == 8 {
-			vrt.Assume(false)
+			return Stmt{}, false
 		}
 		st = mkStmt("POP", mode, M(mk))
 	case "lgdt":
 		if sz != 16 {
-			vrt.Assume(false)
+			return Stmt{}, false
 		}
 		st = mkStmt("LGDT", mode, M(m))
 		st.Want.Ops[0].Size = 0
@@ -166,5 +176,55 @@ func VC02Carriers() {
 	case "acc_store":
 		st = mkStmt("MOV", mode, M(m), R(acc))
 	}
-	checkStmt(st, mode, "c02.ea")
+	return st, true
+}
+
+func init() { vrt.Register("zzverif.VC02Label", VC02Label) }
+
+// VC02Label: a label as the address of a direct memory operand ("[lbl]"),
+// defined before or after the statement, the origin a solver variable: the
+// operand must address exactly the label, under every carrier.
+func VC02Label() {
+	mode := []int{16, 32}[vrt.Choose("mode", 2)]
+	carrier := vrt.ChooseStr("carrier", c02Carriers)
+	forward := vrt.Choose("forward", 2) == 1
+	sz := []int{8, 16, 32}[vrt.Choose("size", 3)]
+	maxOrg := int64(0xff00)
+	if mode == 32 {
+		maxOrg = 0x7fff0000
+	}
+	org := vrt.IntRange("org", 0, maxOrg)
+	st0, ok := c02CarrierStmt(carrier, mode, sz, MemSpec{Label: "lbl", HasDisp: true})
+	if !ok {
+		vrt.Assume(false)
+	}
+	var sb subs
+	src := bitsHeader(mode) + "ORG " + lit(org, &sb) + "\n"
+	if forward {
+		src += st0.Text() + "\nlbl:\nDW 0\n"
+	} else {
+		src += "lbl:\nDW 0\n" + st0.Text() + "\n"
+	}
+	vrt.Note("src", src)
+	out, oc := AssembleT(src, sb.list, "s")
+	vrt.Note("outcome", oc)
+	vrt.NoteBytes("bytes", out)
+	if oc != "ok" || diagnosed() || len(out) < 3 {
+		vrt.Reach("c02l.rejected")
+		return
+	}
+	vrt.Reach("c02l.accepted")
+	code := out[2:]
+	addr := org
+	if forward {
+		code = out[:len(out)-2]
+		addr = org + int64(len(code))
+	}
+	st, _ := c02CarrierStmt(carrier, mode, sz, MemSpec{Label: "lbl", HasDisp: true, Disp: addr})
+	inst, okd := x86ref.Decode(code, mode, 0)
+	var acc diffAcc
+	acc.flag(!okd)
+	acc.flag(inst.Len != len(code))
+	compareInst(&acc, inst, st.Want)
+	vrt.Assert(acc.d == 0, "c02.label")
 }
